@@ -108,6 +108,9 @@ def call_run_case(prop, case, beat=True):
     import signal
 
     limit = getattr(prop, "CASE_TIMEOUT_S", CASE_TIMEOUT_S)
+    if isinstance(case, dict) and case.get("case_timeout_s"):
+        # a deliberately big case: it reports progress itself (touch()) for the process watchdog
+        limit = int(case["case_timeout_s"])
     if beat:
         heartbeat(case)
     if "__pair__" in case:
